@@ -109,16 +109,28 @@ Proof. exact dial_success. Qed.
 Print Assumptions C20_reset_on_success.
 
 (* The executable predicate evaluated on implementation traces (clauses 1-4, 7, 8; with
-   5/6 never raised) holds on every trace the model produces, for all op lists of any
+   5/6 never raised) holds on the model's trace, which exists, for all op lists of any
    length: configurations of the documented interval, draws in [0, 1-2^-53], n >= 0, and
    any sequence of pacing ops (dial outcome, time passing, reset, drop, connect, slowly
    failing dials).  The
    pacing clauses are decided by a monitor that sees only the observed dial times. *)
-Theorem C20_holds_on_every_model_trace : forall cfg c ops obs,
-  decode_cfg cfg = Some c -> cfg_wf c = true -> forallb op_wf ops = true ->
-  run cfg ops = Some obs -> holds_b cfg ops obs = true.
-Proof. exact model_trace_holds. Qed.
+Theorem C20_holds_on_every_model_trace : forall cfg c ops,
+  decode_cfg cfg = Some c -> cfg_wf c = true -> forallb (op_wf_total c) ops = true ->
+  exists obs, run cfg ops = Some obs /\ holds_b cfg ops obs = true.
+Proof. exact model_trace_exists_holds. Qed.
 Print Assumptions C20_holds_on_every_model_trace.
+(* ... the trace exists because the fuel of the time advance always suffices: under a
+   pacing configuration every backoff is at least the base delay (float64 argument: the
+   loop never goes below base when Multiplier >= 1), so at most 61 timers expire in a step
+   of at most 60 base delays *)
+Theorem C20_backoff_at_least_base : forall c i, pacing_ok c = true -> base c <= bo c i.
+Proof. exact bo_ge_base. Qed.
+Print Assumptions C20_backoff_at_least_base.
+Theorem C20_time_advance_total : forall c, pacing_ok c = true -> forall fuel target s,
+  phase_ok c s -> need c target s <= Z.of_nat fuel ->
+  exists s' ds, advance fuel c target s = Some (s', ds) /\ good c s' /\ now s' = target.
+Proof. exact advance_total. Qed.
+Print Assumptions C20_time_advance_total.
 
 (* The implementation's draw cannot be observed or seeded; the comparison accepts an
    observed Backoff(n) only inside the model's envelope (or equal to the model's value) *)
@@ -139,6 +151,7 @@ Example C20_witness :
   | Some c => cfg_wf c && (backoff c 1 0%float =? 1280000000) && (backoff c 200 rmax =? 144000000000)
   | None => false
   end = true /\
+  match decode_cfg C20_paccfg with Some c => forallb (op_wf_total c) [[1; 3; 0]; [6]; [3; 3500000]; [2; 1]; [3; 10000000]; [5]; [2; 0]; [6]; [4]; [7; 400000]; [3; 1000000]; [3; 2000000]] | None => false end = true /\
   forallb op_wf [[1; 3; 0]; [6]; [3; 3500000]; [2; 1]; [3; 10000000]; [5]; [2; 0]; [6]; [4]; [7; 400000]; [3; 1000000]; [3; 2000000]] = true /\
   run C20_paccfg [[1; 3; 0]; [6]; [3; 3500000]; [2; 1]; [3; 10000000]; [5]; [2; 0]; [6]; [4]; [7; 400000]; [3; 1000000]; [3; 2000000]] =
     Some [[3000000]; [1; 0; 3]; [2; 1000000; 3000000; 3]; [0; 3]; [1; 6000000; 2]; [0; 0]; [0; 0];
